@@ -288,10 +288,11 @@ def runEntry {ρ : Type} [DecidableEq ρ] (P : Prog ρ) (mk : String → ρ) (en
           | _ => "?")
         s!"P {entry} {hex r} log{g.log.length}\nM {bytes}\nL {logs}"
 
-/-- three flags `<always><muloRow><freshRets>`, e.g. `010` = the code as it is -/
+/-- flags `<always><muloRow><freshRets><ovfAddrBefore>` -/
 def optsOf (v : String) : Opts :=
   match v.toList with
   | [a, m, f] => { always := a == '1', muloRow := m == '1', freshRets := f == '1' }
+  | [a, m, f, o] => { always := a == '1', muloRow := m == '1', freshRets := f == '1', ovfAddrBefore := o == '1' }
   | _ => {}
 
 def step (st : DState) (toks : List String) : DState × Option String :=
